@@ -556,6 +556,26 @@ def range_classes(lines, kern_export_only=False):
 # ------------------------------------------------------------------------------------------------
 # core scores of C08: signatures only before the first measure, every split re-joined before the next barline
 # ------------------------------------------------------------------------------------------------
+SIGKINDS = ('clef', 'keysig', 'timesig', 'meter')
+
+
+def late_signature_score(r):
+    """a core score whose signature lines (the same kinds in every spine) do not stand before the first measure but right after the
+    barline that opens a later measure: a sketch that gets its clef in measure j, an upbeat written before the signature lines"""
+    for _ in range(50):
+        lines, types = core_score(r)
+        nsig = 0
+        while 1 + nsig < len(lines) and lines[1 + nsig]['ev'] == 'row' and lines[1 + nsig]['cells'][0]['k'] in SIGKINDS:
+            nsig += 1
+        bars = [i for i, e in enumerate(lines) if e['ev'] == 'row' and e['cells'][0]['k'] == 'bar' and len(e['cells']) == len(types)]
+        if not nsig or not bars:
+            continue
+        sigs = lines[1:1 + nsig]
+        j = r.choice(bars)
+        return lines[:1] + lines[1 + nsig:j + 1] + sigs + lines[j + 1:], types
+    return core_score(r)
+
+
 def core_score(r, max_measures=6):
     g = DocGen(r, chords='core', kern_only=True)
     nsp = r.choice([1, 1, 2, 3])
